@@ -7,6 +7,7 @@
 import M4riProofs.W.DataMove
 import M4riProofs.Bridge
 import M4riProofs.GenTie
+import M4riProofs.GenTieMem
 namespace M4ri.Props.C08
 open M4ri M4ri.Mzd
 
@@ -102,5 +103,12 @@ theorem transpose_involutive (B : BMat) (h : B.WF) : B.transpose.transpose = B :
     check (M4ri/Gen/CFuns.lean); these theorems prove them equal to the hand-written model definitions the theorems
     above are about, for all arguments of the C domain -/
 #check @M4ri.GenTie.splitRound_eq
+
+
+/-! ### tie to the C text (word-level kernels on the memory model): the functions `Gen.C.mzd…` are GENERATED from
+    /repo/m4ri by vlib/ctrans.py (clang AST) on every check; a matrix is its memory image `memOf M : row → word → BitVec 64`.
+    Each theorem: the generated C function run on the image of a well-formed model matrix = the image of the model
+    function's result (hence also: no cell outside the addressed words changes) -/
+#check @M4ri.GenTieMem.mzdCopyRow_eq
 
 end M4ri.Props.C08
